@@ -7,7 +7,10 @@
 EXTENDS Naturals, Sequences, FiniteSets, TLC, Json, IOUtils, TLCExt
 
 Entry == {"parse", "stacked", "decompile", "unparse", "trace", "check", "check_json", "likely_safe",
-          "cli_decompile", "cli_trace", "cli_check"}
+          "cli_decompile", "cli_trace", "cli_check",
+          \* the safety check with a caller-supplied analyzer: every analysis on its own, and the ML recipe
+          \* (allow-list analysis first), so that no analysis hides behind what another one reported before it
+          "check_each", "check_ml"}
 \* event classes produced by the recorder (harness/c01child.py)
 Permitted(e) ==
   {"own_import",          \* lazy import of one of fickling's own dependencies (never a module named by the input)
